@@ -14,7 +14,8 @@ def handler(pid):
     return deco
 
 
-def seq_container(ctx, driver, trace_module, model_checks, depth, shards=8, extra_args=(), kf_controls=()):
+def seq_container(ctx, driver, trace_module, model_checks, depth, shards=8, extra_args=(), kf_controls=(),
+                  variant_of=None):
     """Sequential containers (DESIGN section 7, common part):
        1. TLC model check of the property-level spec against its declarative restatement;
        2. directed probe of every open known finding;
@@ -35,7 +36,8 @@ def seq_container(ctx, driver, trace_module, model_checks, depth, shards=8, extr
     ctx.samples = [vlib.json.loads(s) if isinstance(s, str) else s for s in summ["samples"]]
     ctx.notes["driver"] = dict(name=driver, depth=d, nodes=summ["nodes"], root_to_leaf_paths=summ["leaves"],
                                panics_recorded=summ["panics"], extra=summ.get("extra", {}))
-    nviol = vlib.check_recordings(ctx, driver, trace_module, summ["files"], opn)
+    kw = dict(variant_of=variant_of) if variant_of else {}
+    nviol = vlib.check_recordings(ctx, driver, trace_module, summ["files"], opn, **kw)
     vlib.write_evidence(ctx, exhaustive=False)
     return nviol
 
@@ -75,4 +77,17 @@ def c10(ctx):
 @handler("C07")
 def c07(ctx):
     return seq_container(ctx, "lru", "LRUTrace", [("LRUMC", "LRUMC.cfg")],
+                         depth=dict(quick=4, thorough=5), shards=12)
+
+
+@handler("C09")
+def c09(ctx):
+    return seq_container(ctx, "trie", "TrieTrace", [("TrieMC", "TrieMC.cfg")],
+                         depth=dict(quick=4, thorough=5), shards=12,
+                         variant_of=lambda f: "lin" if ".lin." in f else ("abc" if ".abc." in f else "tree"))
+
+
+@handler("C19")
+def c19(ctx):
+    return seq_container(ctx, "list", "ListTrace", [("ListMC", "ListMC.cfg")],
                          depth=dict(quick=4, thorough=5), shards=12)
